@@ -1255,7 +1255,7 @@ class AbsInt:
 
     def _navigate(self, env, key):
         """value of a composite place key (`_7@Some.f0`) when the longest stored prefix is a known aggregate"""
-        toks = re.findall(r'(^_\d+|@\w+|\.f\d+)', key)
+        toks = re.findall(r'(^_\d+|^\$[\w:]+(?:\.\d+)?(?:\._\d+)?|@\w+|\.f\d+)', key)
         if not toks or ''.join(toks) != key or len(toks) < 2:
             return None
         for cut in range(len(toks) - 1, 0, -1):
@@ -1322,20 +1322,184 @@ class AbsInt:
                 return ('str', op['str'])
             if 'int' in op:
                 return ('int', op['int'], op['ty'])
+            if 'const_item' in op:
+                # a named constant that is no scalar (a table, a record of function pointers): its initialiser
+                v = self.eval_const_item(env, op['const_item'])
+                if v is not None:
+                    return v
             return ('const', op['text'], op['ty'])
         if k in ('copy', 'move'):
             return self.read_place(env, op['place'])
         return ('unknown', op.get('text'))
 
-    def eval_promoted(self, env, idx):
-        """value of a promoted constant: evaluate its (straight-line) body once"""
-        key = '$promoted%d' % idx
+    # -- constant tables searched with iterator adaptors ---------------------------------------
+    def _deref_val(self, env, v, n=6):
+        for _ in range(n):
+            if isinstance(v, tuple) and v and v[0] == 'cast':
+                v = v[1]
+                continue
+            if isinstance(v, tuple) and v and v[0] == 'ref' and v[1] in env:
+                v = env[v[1]]
+                continue
+            break
+        return v
+
+    def apply_closure_value(self, env, clo, args):
+        """the one value a closure VALUE returns for these arguments, when every path of its body that returns agrees on it
+        (the body is evaluated with the parameters bound; what it captured by reference is looked up in `env`); else None"""
+        clo = self._deref_val(env, clo)
+        if not (isinstance(clo, tuple) and clo and clo[0] == 'closure') or getattr(self, '_clo_depth', 0) >= 3:
+            return None
+        fn = self.facts.fns.get(clo[1])
+        if fn is None or fn.arg_count != len(args) + 1 or len(fn.blocks) > 80:
+            return None
+        init = {k: v for k, v in env.items() if isinstance(k, str) and k.startswith('$')}
+        AbsInt._capn = getattr(AbsInt, '_capn', 0) + 1
+        caps = []
+        for i, x in enumerate(clo[2] if len(clo) > 2 else ()):
+            if isinstance(x, tuple) and x and x[0] == 'ref' and not x[1].startswith('$'):
+                ck = '$cap%d_%d' % (AbsInt._capn, i)
+                init[ck] = env.get(x[1], ('outer', x[1]))
+                caps.append(('ref', ck))
+            else:
+                caps.append(x)
+        init['$clo%d' % AbsInt._capn] = ('closure', clo[1], tuple(caps))
+        init['_1'] = ('ref', '$clo%d' % AbsInt._capn) if fn.j['locals'][1]['ty'].startswith('&') else init['$clo%d' % AbsInt._capn]
+        for i, a in enumerate(args):
+            init['_%d' % (i + 2)] = a
+        sub = AbsInt(self.facts, fn, init_env=init, max_paths=200)
+        sub._clo_depth = getattr(self, '_clo_depth', 0) + 1
+        vals = []
+        for pth in sub.run():
+            if pth.exit in ('diverge', 'panic', 'unreachable'):
+                continue
+            if pth.exit != 'return':
+                return None
+            v = simp(pth.env.get('_0'))
+            v = self._closed(pth.env, v)
+            if v is None:
+                return None
+            if v not in vals:
+                vals.append(v)
+        if sub.truncated or len(vals) != 1:
+            return None
+        return vals[0]
+
+    def _closed(self, env, v, depth=0):
+        """v with the borrows of the callee's own locals replaced by what they designate (None when that is not a plain value)"""
+        if depth > 6 or not isinstance(v, tuple) or not v:
+            return v
+        if v[0] == 'ref':
+            if isinstance(v[1], str) and v[1].startswith('$'):
+                return v
+            return None
+        if v[0] in ('local', 'mem', 'unknown'):
+            return None
+        if v[0] == 'agg':
+            parts = tuple(self._closed(env, x, depth + 1) for x in v[3])
+            if any(x is None for x in parts):
+                return None
+            if not parts and v[2] and v[1] in self.facts.adts:
+                return ('enum', v[1], v[2])
+            return (v[0], v[1], v[2], parts)
+        if v[0] in ('int', 'enum', 'str', 'fn', 'const'):
+            return v
+        return None
+
+    def fold_table_call(self, env, name, argvals):
+        """`TABLE.iter().find(|(k, _)| k == key).map(|(_, v)| *v)` over a table whose elements are known: the search is carried
+        out element by element (the predicate's body is evaluated on each); None when anything stays undecided"""
+        last = name.split('::')[-1]
+        if last in ('iter', 'into_iter') and len(argvals) == 1 and ('slice' in name or 'IntoIterator' in name or 'array' in name):
+            arr = self._deref_val(env, argvals[0])
+            if isinstance(arr, tuple) and arr and arr[0] == 'agg' and str(arr[1]).startswith('Array') and len(arr[3]) <= 128:
+                AbsInt._tbln = getattr(AbsInt, '_tbln', 0) + 1
+                keys = []
+                for i, e in enumerate(arr[3]):
+                    k = '$tbl%d.%d' % (AbsInt._tbln, i)
+                    env[k] = e
+                    keys.append(k)
+                return ('sliceiter', tuple(keys))
+            return None
+        if last in ('find', 'find_map', 'position', 'any') and len(argvals) == 2 and 'Iterator' in name:
+            it = self._deref_val(env, argvals[0])
+            if not (isinstance(it, tuple) and it and it[0] == 'sliceiter'):
+                return None
+            for i, k in enumerate(it[1]):
+                arg = ('ref', k)
+                if last == 'find':
+                    env[k + '.r'] = arg
+                    arg = ('ref', k + '.r')
+                r = self.apply_closure_value(env, argvals[1], [arg])
+                if r is None:
+                    return None
+                if last == 'find_map':
+                    if r[0] == 'agg' and r[1] == 'core::option::Option' and r[2] == 'Some':
+                        return r
+                    if r[0] == 'agg' and r[1] == 'core::option::Option' and r[2] == 'None' or (r[0] == 'enum' and r[2] == 'None'):
+                        continue
+                    return None
+                if r[0] != 'int':
+                    return None
+                if r[1]:
+                    if last == 'find':
+                        return ('agg', 'core::option::Option', 'Some', (('ref', k),))
+                    if last == 'position':
+                        return ('agg', 'core::option::Option', 'Some', (('int', i, 'usize'),))
+                    return ('int', 1, 'bool')
+            return ('int', 0, 'bool') if last == 'any' else ('agg', 'core::option::Option', 'None', ())
+        if name.endswith(('Option::<T>::map', 'Option::<T>::and_then', 'Option::<T>::is_some_and')) and len(argvals) == 2:
+            a0 = self._deref_val(env, argvals[0], 2) if argvals[0][0] != 'agg' else argvals[0]
+            clo = self._deref_val(env, argvals[1])
+            if isinstance(a0, tuple) and a0 and a0[0] == 'agg' and a0[1] == 'core::option::Option' and isinstance(clo, tuple) and clo and clo[0] == 'closure':
+                if a0[2] == 'None':
+                    return ('int', 0, 'bool') if last == 'is_some_and' else a0
+                if a0[2] == 'Some' and a0[3]:
+                    r = self.apply_closure_value(env, clo, [a0[3][0]])
+                    if r is None:
+                        return None
+                    return r if last != 'map' else ('agg', 'core::option::Option', 'Some', (r,))
+            return None
+        if name.endswith(('Option::<T>::copied', 'Option::<T>::cloned', 'Option::<&T>::copied', 'Option::<&T>::cloned')) and len(argvals) == 1:
+            a0 = argvals[0]
+            if a0[0] == 'agg' and a0[1] == 'core::option::Option':
+                if a0[2] == 'None':
+                    return a0
+                if a0[2] == 'Some' and a0[3] and a0[3][0][0] == 'ref' and a0[3][0][1] in env:
+                    return ('agg', 'core::option::Option', 'Some', (env[a0[3][0][1]],))
+            return None
+        return None
+
+    def eval_const_item(self, env, path):
+        """value of a named constant of the crate (`const TABLE: [(A, B); n] = [..]`): its initialiser, evaluated once like a
+        promoted constant (None when the facts carry no body for it)"""
+        c = (getattr(self.facts, 'consts', None) or {}).get(path)
+        if not c or not c.get('body'):
+            return None
+        key = '$const:' + path
         if key + '._0' in env:
             return env[key + '._0']
-        proms = self.fn.j.get('promoted') or []
+        saved = (getattr(self, '_proms', None), getattr(self, '_prom_prefix', '$'))
+        self._proms, self._prom_prefix = c['body'].get('promoted') or [], key + ':'
+        try:
+            return self._eval_straight(env, c['body'], key, ('const', path, c.get('ty')))
+        finally:
+            self._proms, self._prom_prefix = saved
+
+    def eval_promoted(self, env, idx):
+        """value of a promoted constant: evaluate its (straight-line) body once"""
+        key = getattr(self, '_prom_prefix', '$') + 'promoted%d' % idx
+        if key + '._0' in env:
+            return env[key + '._0']
+        proms = getattr(self, '_proms', None)
+        if proms is None:
+            proms = self.fn.j.get('promoted') or []
         pj = next((p for p in proms if p['i'] == idx), None)
         if pj is None:
             return ('const', 'promoted[%d]' % idx, '?')
+        return self._eval_straight(env, pj, key, ('const', 'promoted[%d]' % idx, '?'), idx)
+
+    def _eval_straight(self, env, pj, key, dflt, idx=-1):
         penv = {}
         b = 0
         for _ in range(64):
@@ -1354,10 +1518,13 @@ class AbsInt:
                 b = t['target']
                 continue
             break
-        res = penv.get('_0', ('const', 'promoted[%d]' % idx, '?'))
+        res = penv.get('_0', dflt)
         # re-home the promoted's locals into the caller's environment under a private prefix
         for k, v in penv.items():
-            env[key + '.' + k] = self._rehome(v, key)
+            if k.startswith('$'):
+                env[k] = v          # a constant evaluated inside this one keeps its own name
+            else:
+                env[key + '.' + k] = self._rehome(v, key)
         return self._rehome(res, key)
 
     def _rehome(self, v, prefix):
@@ -1534,7 +1701,7 @@ class AbsInt:
                         res = ('agg', 'core::result::Result', 'Ok', argvals[0][3])
                     else:
                         res = ('agg', 'core::result::Result', 'Err', (('call', name, argvals, b),))
-                if res is None and len(argvals) == 2 and name.endswith(('PartialEq>::eq', 'PartialEq::eq', 'PartialEq>::ne', 'PartialEq::ne')):
+                if res is None and len(argvals) == 2 and name.endswith(('PartialEq>::eq', 'PartialEq::eq', 'PartialEq>::ne', 'PartialEq::ne', 'PartialEq<&B> for &A>::eq', 'PartialEq<&B> for &A>::ne')):
                     # comparison of two known field-less enum values (derived PartialEq compares the discriminants)
                     ab = []
                     for a_ in argvals:
@@ -1547,6 +1714,8 @@ class AbsInt:
                                 base_ = env.get(m_.group(1)) if m_ else None
                                 if base_ is not None and base_[0] == 'agg' and int(m_.group(2)) < len(base_[3]):
                                     a_ = base_[3][int(m_.group(2))]
+                        if a_[0] == 'agg' and a_[2] and not a_[3] and a_[1] in self.facts.adts:
+                            a_ = ('enum', a_[1], a_[2])          # a field-less variant written out (`Operator::Add` in a constant table)
                         ab.append(a_)
                     if ab[0][0] == 'enum' and ab[1][0] == 'enum' and ab[0][1] == ab[1][1]:
                         eq_ = ab[0][2] == ab[1][2]
@@ -1586,6 +1755,8 @@ class AbsInt:
                             res = ('agg', a0[1], a0[2], (inner,))
                         elif a0[2] in ('Err', 'None'):
                             res = a0
+                if res is None:
+                    res = self.fold_table_call(env, name, argvals)
                 if res is None and name.endswith('Try>::branch') and argvals and argvals[0][0] == 'agg' and \
                         argvals[0][1] in ('core::result::Result', 'core::option::Option') and argvals[0][2] in ('Ok', 'Err', 'Some', 'None'):
                     a0 = argvals[0]
